@@ -19,6 +19,8 @@ import (
 //	rdall2                 every pair of cuts (packets <= 200 B, thorough)
 //	nb <name>  nfb <hex>  cb <comp>  cfb <hex>     standalone name / component codecs
 //	rx D|I|P <hex> <cuts>  decode arbitrary bytes (corpus / replays)
+//	mrd <bit> <cuts>       flip one bit of the packet, ReadPacket over the cut spec (malformed input)
+//	mrdall <bit>           flip one bit, ReadPacket over every single cut
 //	cmp                    repeats the output of the make op (compared with the model HERE)
 func gen(g *common.Gen) {
 	r := g.R
@@ -47,6 +49,21 @@ func gen(g *common.Gen) {
 		if common.Thorough() && size <= 160 && r.Chance(1, 3) {
 			g.Op("rdall2")
 			g.Stat("rdall2")
+		}
+		// malformed input: the same bytes with one bit flipped, decoded contiguously, over random
+		// cuts and (small packets) over every single cut — segmented decoding must agree with
+		// contiguous decoding on ANY bytes
+		for k := r.Range(1, 3); k > 0; k-- {
+			bit := r.Intn(8 * size)
+			if r.Chance(1, 2) {
+				bit = r.Intn(8 * min(size, 48))
+			}
+			g.Op("mrd %d c", bit)
+			g.Op("mrd %d %s", bit, GenCuts(r, size))
+			if size <= 300 {
+				g.Op("mrdall %d", bit)
+				g.Stat("mrdall")
+			}
 		}
 		// standalone codecs on the same name
 		name := strings.Fields(mk)[1]
@@ -135,6 +152,20 @@ func exec(op string) string {
 			return "skip"
 		}
 		return allCuts(last.Kind, last.Wire, f[0] == "rdall2")
+	case "mrd", "mrdall":
+		if last == nil {
+			return "skip"
+		}
+		bit := common.Atoi(f[1])
+		if bit >= 8*len(last.Wire) {
+			return "skip"
+		}
+		w := append([]byte{}, last.Wire...)
+		w[bit/8] ^= 1 << uint(7-bit%8)
+		if f[0] == "mrdall" {
+			return allCuts('P', w, false)
+		}
+		return ReadAs('P', w, f[2])
 	case "rx":
 		return ReadAs(f[1][0], common.UnHex(f[2]), f[3])
 	case "nb":
